@@ -33,6 +33,13 @@ RULE = (
     "changes the number of observations/components; distinct by content hash of the history"
 )
 PARTIAL = [
+    "inherited UserList operations outside the property's list are modelled as they behave (`stepX`): `del`, `+`, `*`, `*=`, "
+    "`sort` preserve the invariant (`xop_preserves`), `mfd[i] = c` and `mfd += […]` do not (`xop_*_counterexample`, documented, "
+    "not judged); `copy()` is not modelled (it returns an object whose `data` is the original object)",
+    "BasisFunctionalData as a container (`BasisObj`: unguarded constructor / coefficients attribute) is modelled and proved about "
+    "but not run against the implementation (basis data are not among the property's object kinds)",
+    "in-place mutation of an object's dictionaries with items of the RIGHT class (`fd.argvals[k] = grid of another size`, `pop`, "
+    "`del`) bypasses the setters' compatibility check: outside the property's operation list, not modelled",
     "numeric content of argvals_stand (only its class and numbers of points are modelled)",
     "dimension of an empty irregular dataset (n_dimension raises StopIteration; mirrored, not judged)",
 ]
